@@ -565,9 +565,10 @@ def build_extra():
           trusted_reason="switch controller (C03)")
     C.cls("BcpInterface", fields={})
     C.ext("BcpInterface.send_driver_event", model=common.noop, trusted_reason="BCP monitoring notification")
-    C.cls("SoftwareEosRepulseManager", file=PC, fields=dict(machine=Opaque("Any"), _handlers=Opaque("Any")))
-    C.ext("SoftwareEosRepulseManager.stop", model=lambda I, env, a, k: (emit(I, "sw_eos.stop"), NONE)[1],
-          trusted_reason="software EOS repulse (its four switch handlers are removed; not under contract)")
+    C.cls("SoftwareEosRepulseManager", file=PC, fields=dict(
+        machine=ObjS("MachineController", switch_controller=ObjS("SwitchController")), _handlers=Seq(Opaque("SwitchKey")),
+        _button_is_active=Bool, _is_eos_closed_long_enough=Bool, enable_switch=Opaque("Any"), eos_switch=Opaque("Any"),
+        driver=Opaque("Any"), repulse_settings=Opaque("Any")))
     C.globals["SoftwareEosRepulseManager"] = VFn("model", model=lambda I, a, k: (
         emit(I, "sw_eos.create"), VObj(Obj("SoftwareEosRepulseManager", ObjS("SoftwareEosRepulseManager", {}),
                                            I.fresh_name("sw_eos"))))[1])
@@ -678,6 +679,42 @@ def build_extra():
         return VBool(ok)
     C.helpers["cleared_as_held"] = cleared_as_held
     C.helpers["n_sw_eos_stops"] = lambda I: VInt(len(events_named(I, "sw_eos.stop")))
+
+    def all_registered_handlers_held(I):
+        """every switch handler the manager registered is kept in _handlers (so that stop() removes it)"""
+        this = I.frames[0].env["self"].ref
+        c = I.container(I.force(I.read_field(this, "_handlers")).ref)
+        keys = [I.force(e.args["key"]).t for e in events_named(I, "add_switch_handler")]
+        if isinstance(c, LConc):
+            held = [I.force(x).t for x in c.items]
+            return VBool(len(held) == len(keys) and all(a.eq(b) for a, b in zip(held, keys)))
+        return VBool(False)
+    C.helpers["all_registered_handlers_held"] = all_registered_handlers_held
+    C.helpers["n_registered"] = lambda I: VInt(len(events_named(I, "add_switch_handler")))
+
+    def stop_removes_all(I):
+        this = I.frames[0].env["self"].ref
+        evs = events_named(I, "remove_switch_handlers")
+        if len(evs) != 1:
+            return VBool(False)
+        return VBool(I.force(evs[0].args["keys"]).ref is I.force(I.read_field(this, "_handlers")).ref)
+    C.helpers["stop_removes_all"] = stop_removes_all
+    C.trace_helpers |= {"all_registered_handlers_held", "n_registered", "stop_removes_all"}
+    RS = ObjS("RepulseSettingsI", debounce_ms=Int)
+    C.cls("RepulseSettingsI", fields=dict(debounce_ms=Int))
+    C.fn("SoftwareEosRepulseManager.__init__",
+         params=dict(machine=ObjS("MachineController", switch_controller=ObjS("SwitchController")),
+                     enable_switch=SW("enable"), eos_switch=SW("eos"), driver=Opaque("Any"), repulse_settings=RS),
+         ensures=[("SE1: the software EOS repulse registers its four switch handlers (button on/off, EOS closed long "
+                   "enough, EOS open) and keeps EVERY key in _handlers", "n_registered() == 4 and "
+                   "all_registered_handlers_held()")],
+         modifies=["self.machine", "self.enable_switch", "self.eos_switch", "self.driver", "self.repulse_settings",
+                   "self._button_is_active", "self._is_eos_closed_long_enough", "self._handlers", "self._handlers.**"],
+         raises={}, no_inv=True)
+    C.fn("SoftwareEosRepulseManager.stop",
+         ensures=[("SE2: stop() removes all handlers held in _handlers - after it no EOS or button change can drive the "
+                   "coil", "stop_removes_all()")],
+         modifies=[], raises={}, no_inv=True, emits=lambda I, env, res: emit(I, "sw_eos.stop"), call_ensures=[])
     C.helpers["n_psu_removed"] = lambda I: VInt(len(events_named(I, "remove_switch_handler")))
     C.fn("PlatformController.clear_hw_rule", params=dict(rule=Init(rule_init)),
          loops={0: LoopSpec(invariant=[], unroll=True)},
